@@ -4,12 +4,12 @@ package main
 // DD/FD mirror pairs (C11), fuzz (C12).
 
 import (
-	"strings"
 	"bufio"
 	"flag"
 	"fmt"
 	"math/rand"
 	"os"
+	"strings"
 
 	"github.com/koron-go/z80"
 )
@@ -153,7 +153,7 @@ func cmdVol1(args []string) {
 		r := rand.New(rand.NewSource(*seed*6151 + int64(sh)))
 		f, w := openShard(*out, sh)
 		for k := sh; k < len(dps)**n; k += *shards {
-			dp, i := dps[k / *n], k % *n
+			dp, i := dps[k / *n], k%*n
 			is := RandInit(r, dp/256, dp%256)
 			is.Pend = []int{}
 			is.Dev = DevDesc{Kind: "volatile", Seed: r.Intn(1000), Len: 65536, Val: 0xc000}
@@ -209,7 +209,7 @@ func cmdCat1(args []string) {
 	for sh := 0; sh < *shards; sh++ {
 		f, w := openShard(*out, sh)
 		for k := sh; k < total; k += *shards {
-			dp, i := k / *n, k % *n
+			dp, i := k / *n, k%*n
 			is := CatInit(dp/256, dp%256, i, *seed, *allD)
 			m := NewMachine(is)
 			EmitInit(w, is)
@@ -339,7 +339,7 @@ func swapIdx(r [27]int) [27]int {
 
 type runLog struct {
 	pcs       []int // CPU.PC as a device sees it at each memory access of the Step
-	idxMoved  int // the OTHER index register was seen changed by a device during the Step (at some access)
+	idxMoved  int   // the OTHER index register was seen changed by a device during the Step (at some access)
 	pre, post [27]int
 	halt      bool
 	rd        []uint16
